@@ -57,6 +57,7 @@ class Src:
 
 def gen_source(rng, hazardous=True) -> Src:
     s = Src()
+    s.max_depth = 3 if rng.random() < 0.7 else 6
     ind = lambda d: "    " * d  # noqa: E731
 
     def lc(did, depth, same_line=False):
@@ -85,7 +86,7 @@ def gen_source(rng, hazardous=True) -> Src:
             while k in used_keys or k in ("fromA", "fromB", "nb"):
                 k = gen.plain_key(rng)          # a well-formed dict declares every key once
             used_keys.add(k)
-            if r < 0.2 and depth < 3:
+            if r < (0.2 if depth < 3 else 0.45) and depth < s.max_depth:
                 s._dict_counter += 1
                 nd = s._dict_counter
                 s.lines.append(ind(depth) + k)
